@@ -40,6 +40,10 @@ Definition st_sig (st : lstate) : list N :=
    if s_act (l_so st) then 1 else 0; if l_att st then 1 else 0; l_rseq st; l_nseq st;
    if l_keep st then 1 else 0].
 
+(* an entry of the observed signature may be "not observable" (a non-public attribute that does
+   not exist in the tree under test): 2^40 *)
+Definition sig_eqb (m o : N) : bool := (o =? 1099511627776) || (m =? o).
+
 Definition outs_eqb (a b : list (N * list N)) : bool :=
   list_eqb (fun x y => (fst x =? fst y) && bytes_eqb (snd x) (snd y)) a b.
 
@@ -53,7 +57,7 @@ Definition diag_ops (tab : list (list N * list N)) (c : cfg) (st0 : lstate) (ops
   | (Some (st, o), sent, rest) =>
       if negb (list_eqb bytes_eqb sent dgrams) then 2
       else if negb (outs_eqb o outs) then 3
-      else if negb (bytes_eqb (st_sig st) final) then 4
+      else if negb (list_eqb sig_eqb (st_sig st) final) then 4
       else match rest with [] => 0 | _ => 5 end
   end.
 Definition chk_ops tab c st0 ops replies dgrams outs final : bool :=
